@@ -153,3 +153,166 @@ pub mod hpack {
         }
     }
 }
+
+/// `proto::streams::flow_control::FlowControl` driven by plain op codes.
+pub mod flow {
+    use crate::proto::streams_verif::FlowControl;
+
+    pub struct Flow(FlowControl);
+
+    impl Default for Flow {
+        fn default() -> Self {
+            Flow(FlowControl::new())
+        }
+    }
+
+    impl Flow {
+        /// applies one method; answers `ok` / `err` (the `Result`) and the value for queries
+        pub fn apply(&mut self, op: &str, arg: u32) -> String {
+            let r = |x: Result<(), crate::frame::Reason>| match x {
+                Ok(()) => "ok".to_string(),
+                Err(e) => format!("err:{}", u32::from(e)),
+            };
+            match op {
+                "inc_window" => r(self.0.inc_window(arg)),
+                "dec_send_window" => r(self.0.dec_send_window(arg)),
+                "dec_recv_window" => r(self.0.dec_recv_window(arg)),
+                "assign_capacity" => r(self.0.assign_capacity(arg)),
+                "claim_capacity" => r(self.0.claim_capacity(arg)),
+                "send_data" => r(self.0.send_data(arg)),
+                "unclaimed_capacity" => match self.0.unclaimed_capacity() {
+                    Some(v) => format!("some:{}", v),
+                    None => "none".to_string(),
+                },
+                "has_unavailable" => format!("{}", self.0.has_unavailable()),
+                "window_size" => format!("{}", self.0.window_size()),
+                _ => "bad-op".to_string(),
+            }
+        }
+
+        /// (window_size, available) as signed integers
+        pub fn state(&self) -> (isize, isize) {
+            let d = format!("{:?}", self.0);
+            // FlowControl { window_size: Window(5), available: Window(3) }
+            let num = |key: &str| -> isize {
+                d.find(key)
+                    .map(|i| {
+                        let rest = &d[i + key.len()..];
+                        let end = rest.find(')').unwrap_or(rest.len());
+                        rest[..end].parse().unwrap_or(0)
+                    })
+                    .unwrap_or(0)
+            };
+            (num("window_size: Window("), isize::from(self.0.available()))
+        }
+    }
+}
+
+/// `proto::streams::state::State` driven by plain event names.
+pub mod state {
+    use crate::frame::{self, Reason, StreamId};
+    use crate::proto::streams_verif::State;
+    use crate::proto::{Error, Initiator};
+
+    #[derive(Default)]
+    pub struct St(State);
+
+    impl St {
+        pub fn apply(&mut self, ev: &str, arg: u32) -> String {
+            let sid = StreamId::from(1u32);
+            match ev {
+                "send_open" => format!("{:?}", self.0.send_open(arg != 0).map_err(|e| format!("{:?}", e))),
+                "recv_open" => {
+                    // arg: bit0 = END_STREAM, bit1 = informational (1xx) head
+                    let pseudo = if arg & 2 != 0 {
+                        frame::Pseudo::response(http::StatusCode::CONTINUE)
+                    } else {
+                        frame::Pseudo::response(http::StatusCode::OK)
+                    };
+                    let mut h = frame::Headers::new(sid, pseudo, http::HeaderMap::new());
+                    if arg & 1 != 0 {
+                        h.set_end_stream();
+                    }
+                    match self.0.recv_open(&h) {
+                        Ok(b) => format!("Ok({})", b),
+                        Err(e) => format!("Err({})", render_err(&e)),
+                    }
+                }
+                "reserve_remote" => match self.0.reserve_remote() {
+                    Ok(()) => "Ok(())".into(),
+                    Err(e) => format!("Err({})", render_err(&e)),
+                },
+                "reserve_local" => format!("{:?}", self.0.reserve_local().map_err(|e| format!("{:?}", e))),
+                "recv_close" => match self.0.recv_close() {
+                    Ok(()) => "Ok(())".into(),
+                    Err(e) => format!("Err({})", render_err(&e)),
+                },
+                "recv_reset" => {
+                    // arg: bit0 = queued
+                    self.0.recv_reset(frame::Reset::new(sid, Reason::CANCEL), arg & 1 != 0);
+                    "()".into()
+                }
+                "handle_error" => {
+                    self.0.handle_error(&Error::library_go_away(Reason::PROTOCOL_ERROR));
+                    "()".into()
+                }
+                "recv_eof" => {
+                    self.0.recv_eof();
+                    "()".into()
+                }
+                "send_close" => {
+                    self.0.send_close();
+                    "()".into()
+                }
+                "set_reset" => {
+                    let init = match arg {
+                        0 => Initiator::User,
+                        1 => Initiator::Library,
+                        _ => Initiator::Remote,
+                    };
+                    self.0.set_reset(sid, Reason::CANCEL, init);
+                    "()".into()
+                }
+                "set_scheduled_reset" => {
+                    self.0.set_scheduled_reset(Reason::CANCEL);
+                    "()".into()
+                }
+                _ => "bad-op".into(),
+            }
+        }
+
+        /// the state and every predicate
+        pub fn describe(&self) -> String {
+            let er = match self.0.ensure_recv_open() {
+                Ok(b) => format!("Ok({})", b),
+                Err(e) => format!("Err({})", render_err(&e)),
+            };
+            format!(
+                "{:?} sched={:?} is_sched={} local_err={} remote_reset={} reset={} send_streaming={} recv_headers={} recv_streaming={} recv_eos={} closed={} send_closed={} idle={} ensure_recv_open={}",
+                self.0,
+                self.0.get_scheduled_reset().map(u32::from),
+                self.0.is_scheduled_reset(),
+                self.0.is_local_error(),
+                self.0.is_remote_reset(),
+                self.0.is_reset(),
+                self.0.is_send_streaming(),
+                self.0.is_recv_headers(),
+                self.0.is_recv_streaming(),
+                self.0.is_recv_end_stream(),
+                self.0.is_closed(),
+                self.0.is_send_closed(),
+                self.0.is_idle(),
+                er
+            )
+            .replace(' ', "_")
+        }
+    }
+
+    fn render_err(e: &Error) -> String {
+        match e {
+            Error::Reset(_, r, i) => format!("Reset:{}:{:?}", u32::from(*r), i),
+            Error::GoAway(_, r, i) => format!("GoAway:{}:{:?}", u32::from(*r), i),
+            Error::Io(k, _) => format!("Io:{:?}", k),
+        }
+    }
+}
